@@ -4,11 +4,11 @@ package main
 
 import (
 	"fmt"
+	"go/token"
+	"go/types"
 	"os"
 	"os/exec"
 	"path/filepath"
-	"go/token"
-	"go/types"
 	"sort"
 	"strings"
 
@@ -89,6 +89,7 @@ func runC05(c *Ctx) {
 	c05Wrap(c, m)
 	c05HdrLen(c, m)
 	c05Mutex(c, m, fns)
+	c05ErrorsChecked(c, m, fns)
 	if c.Tier == "thorough" && c.goos == "linux" && c.arch == "amd64" {
 		c05BCE(c, m, "C05.bce-crosscheck", []string{"internal/counter", "internal/upload", "internal/telemetry", "internal/mmap", "internal/config", "internal/configstore", "counter", "."}, fns)
 	}
@@ -97,7 +98,7 @@ func runC05(c *Ctx) {
 // one line of reason per exception
 var c05BoundsTable = boundsTable{
 	"(*internal/upload.uploader).uploadReportContents/slice slice(strings.TrimSuffix(": "a report name shorter than a date panics here; upload.Run recovers it on the same goroutine (C05.recover) - the run is abandoned, the host is not affected",
-	"internal/upload.debugLogFile/index strings.Fields(":                              "an empty Go version string panics here; recovered by upload.Run (C05.recover); only reached when the user created the debug directory",
+	"internal/upload.debugLogFile/index strings.Fields(":                               "an empty Go version string panics here; recovered by upload.Run (C05.recover); only reached when the user created the debug directory",
 	"internal/upload.latestReport/slice":                                               "every non-empty value of latest was assigned under HasSuffix(name, \".json\"), so len ≥ 5; otherwise recovered by upload.Run",
 	"internal/mmap.mmapFile/slice":                                                     "contract: syscall.Mmap returns a slice of the requested length, which is size rounded up to the page size ≥ n",
 	"internal/telemetry.ProgramInfo/index *global:os.Args[0]":                          "contract: a process has at least argv[0]",
@@ -107,8 +108,8 @@ var c05BoundsTable = boundsTable{
 }
 
 var c05LoopTable = map[string]string{
-	"(*internal/counter.file).invalidateCounters/loop while (phi).invalidateCounters != &param:f.end)": "walk of the in-memory list of registered counters; each counter is linked once (next is CASed from nil), the list ends at &f.end",
-	"(*internal/counter.mappedFile).newCounter/loop while (phi).newCounter != phi).newCounter)":       "duplicate-check walk from the new head to the previous head: lookup has just walked the whole (bounded) chain from the previous head on this mapping, and the records in front of it were prepended by live writers",
+	"(*internal/counter.file).invalidateCounters/loop while (phi).invalidateCounters != &param:f.end)":        "walk of the in-memory list of registered counters; each counter is linked once (next is CASed from nil), the list ends at &f.end",
+	"(*internal/counter.mappedFile).newCounter/loop while (phi).newCounter != phi).newCounter)":               "duplicate-check walk from the new head to the previous head: lookup has just walked the whole (bounded) chain from the previous head on this mapping, and the records in front of it were prepended by live writers",
 	"internal/counter.EncodeStack/loop exiting on (*runtime.Frames).Next(runtime.CallersFrames(param:pcs))#1": "contract: runtime.Frames yields finitely many frames for a finite PC slice",
 	"internal/upload.computeRandom/loop while (crypto/rand.Read(slice(alloc:makeslice#t0,_,8,_))#1 != nil)":   "probabilistic rejection loop: each iteration accepts with probability > 0.99",
 }
@@ -144,13 +145,13 @@ func c05Recover(c *Ctx, m *Module) {
 }
 
 var c05PanicTable = map[string]string{
-	`(*internal/counter.Counter).Add/panic "Counter.Add negative"`:                            "API misuse by the host (documented precondition), not a telemetry failure",
-	`internal/counter.Open/panic "BUG: Open called with inconsistent values for 'rotate'"`:    "API misuse by the host: Open and OpenAndRotate mixed in one process",
-	`(*internal/counter.mappedFile).cas32/panic "bad cas32"`:                                  "unreachable: both callers pass header-relative offsets (limit word, bucket head) that lie inside the first page of a mapping openMapped has checked to be ≥ minFileLen",
-	`telemetry.Start/log.Fatalf`:                                                              "API misuse: unexpected value of the child marker set by the embedding program",
-	`telemetry.child/os.Exit`:                                                                 "runs only in the sidecar process, which exits when done",
-	`internal/counter.debugFatalf/os.Exit`:                                                    "only when GODEBUG=countertrace=1 or the test switch CrashOnBugs is set",
-	`internal/configstore.Download/panic`:                                                     "",
+	`(*internal/counter.Counter).Add/panic "Counter.Add negative"`:                         "API misuse by the host (documented precondition), not a telemetry failure",
+	`internal/counter.Open/panic "BUG: Open called with inconsistent values for 'rotate'"`: "API misuse by the host: Open and OpenAndRotate mixed in one process",
+	`(*internal/counter.mappedFile).cas32/panic "bad cas32"`:                               "unreachable: both callers pass header-relative offsets (limit word, bucket head) that lie inside the first page of a mapping openMapped has checked to be ≥ minFileLen",
+	`telemetry.Start/log.Fatalf`:                                                           "API misuse: unexpected value of the child marker set by the embedding program",
+	`telemetry.child/os.Exit`:                                                              "runs only in the sidecar process, which exits when done",
+	`internal/counter.debugFatalf/os.Exit`:                                                 "only when GODEBUG=countertrace=1 or the test switch CrashOnBugs is set",
+	`internal/configstore.Download/panic`:                                                  "",
 }
 
 func c05Panics(c *Ctx, m *Module, fns []*ssa.Function, chains map[*ssa.Function][]*ssa.Function) {
@@ -662,4 +663,80 @@ func c05Mutex(c *Ctx, m *Module, fns []*ssa.Function) {
 		}
 	}
 	r.Check("C05.mutex-pairing", "lock sites enumerated", "-", n >= 4, fmt.Sprintf("%d lock acquisitions on host-facing paths", n))
+}
+
+// c05ErrorsChecked: error results on the host-facing paths are consumed, or tabled as best effort.
+var c05IgnoreTable = map[string]string{ // "function|callee" -> reason (one named site each)
+	"(*internal/counter.mappedFile).close$1|var:internal/counter.munmap": "unmapping a mapping that is being discarded; nothing to do on failure",
+	"(*internal/counter.mappedFile).close$1|(*os.File).Close":            "best-effort close of the counter file's descriptor",
+	"(*internal/upload.uploader).findWork|os.MkdirAll":                   "creates the upload directory opportunistically; a failure surfaces at the first write into it",
+	"(*internal/upload.uploader).uploadReportContents|(*os.File).Close":  "the lock file is only a name; its descriptor carries no data",
+	"(*internal/upload.uploader).uploadReportContents|os.Remove":         "lock release / disposal of the local copy: a leftover is retried or ignored by the next run",
+	"telemetry.acquireUploadToken|os.Remove":                             "a stale token that cannot be removed makes the exclusive create fail, which is handled",
+	"telemetry.acquireUploadToken|(*os.File).Close":                      "the token file is only a name",
+	"telemetry.child|os.Setenv":                                          "Setenv fails only for invalid keys; the key is a constant",
+	"telemetry.child|(*golang.org/x/sync/errgroup.Group).Wait":           "sidecar process: both goroutines return nil",
+	"telemetry.startChild|(*os.File).Close":                              "parent's copy of the sidecar log descriptor",
+	"telemetry.startChild$1|(*os/exec.Cmd).Wait":                         "reaping the sidecar; its exit status does not concern the host",
+	"internal/counter.debugFatalf|fmt.Fprintf":                           "debug output to stderr",
+	"internal/counter.debugPrintf|fmt.Fprintf":                           "debug output to stderr",
+	"internal/upload.Run|(*internal/upload.uploader).Close":              "closing the debug log file at the end of the run",
+}
+
+func c05ErrorsChecked(c *Ctx, m *Module, fns []*ssa.Function) {
+	r := c.R
+	n, dropped := 0, 0
+	for _, f := range fns {
+		for _, cs := range callsIn(f) {
+			cl, ok := cs.(*ssa.Call)
+			var errIdx = -1
+			var t types.Type
+			if ok {
+				t = cl.Type()
+			} else {
+				// go/defer statements discard results by construction
+				t = cs.Common().Signature().Results()
+			}
+			if tup, isT := t.(*types.Tuple); isT {
+				if tup.Len() > 0 && isErrorType(tup.At(tup.Len()-1).Type()) {
+					errIdx = tup.Len() - 1
+				}
+			} else if t != nil && isErrorType(t) {
+				errIdx = 0
+			}
+			if errIdx < 0 {
+				continue
+			}
+			n++
+			used := false
+			if ok {
+				if _, isT := t.(*types.Tuple); isT {
+					for _, u := range referrers(cl) {
+						if e, isE := u.(*ssa.Extract); isE && e.Index == errIdx {
+							for _, u2 := range referrers(e) {
+								if _, dbg := u2.(*ssa.DebugRef); !dbg {
+									used = true
+								}
+							}
+						}
+					}
+				} else {
+					for _, u := range referrers(cl) {
+						if _, dbg := u.(*ssa.DebugRef); !dbg {
+							used = true
+						}
+					}
+				}
+			}
+			if used {
+				continue
+			}
+			dropped++
+			cn := calleeName(cs.Common())
+			reason, tabled := c05IgnoreTable[fname(f)+"|"+cn]
+			r.Check("C05.errors-checked", fname(f)+"/error of "+cn+" dropped", m.Pos(cs.Pos()), tabled && reason != "",
+				"an error reported by this call is discarded; on a host-facing path that is allowed only for the tabled best-effort operations: "+reason)
+		}
+	}
+	r.Check("C05.errors-checked", "error-returning calls enumerated", "-", n >= 40, fmt.Sprintf("%d error-returning calls, %d with the error discarded", n, dropped))
 }
